@@ -49,7 +49,7 @@ UNITS = {
     },
     "response_gen": {
         "preludes": ["shims/core.rs", "shims/bytes.rs"],
-        "specs": ["contracts/spec/http.rs"],
+        "specs": ["contracts/spec/hv.rs", "contracts/spec/http.rs"],
         "sources": [
             SYMBOL_SRC,
             ("src/header/mod.rs", ["struct:Header", "consts:Header"]),
@@ -59,15 +59,44 @@ UNITS = {
         ],
         "contracts": ["contracts/response.vc"],
     },
+    "cors": {
+        "preludes": ["shims/core.rs", "shims/env.rs"],
+        "specs": ["contracts/spec/hv.rs", "contracts/spec/cors.rs"],
+        "sources": [
+            SYMBOL_SRC,
+            ("src/header/mod.rs", ["struct:Header", "consts:Header"]),
+            ("src/range/mod.rs", ["struct:Range", "struct:ContentRange", "consts:Range"]),
+            ("src/response/mod.rs", ["struct:StatusCodeReasonPhrase", "struct:Error"]),
+            ("src/request/mod.rs", ["struct:Request", "struct:Method", "const:METHOD", "fn:Request::get_header:assume"]),
+            ("src/entry_point/mod.rs", ["struct:Config", "consts:Config"]),
+            ("src/cors/mod.rs", ["struct:Cors", "consts:Cors", "fn:Cors::get_vary_header_value", "fn:Cors::allow_all",
+                                 "fn:Cors::_process", "fn:Cors::process_using_default_config", "fn:Cors::get_headers"]),
+        ],
+        "contracts": ["contracts/request.vc", "contracts/cors.vc"],
+    },
 }
 for k, v in UNITS.items():
     v["name"] = k
 
 PROPS = {
+    "C11": {
+        "units": ["cors"],
+        "level": "proof",
+        "falsifier": ["cors"],
+        "samples": [
+            "Cors::_process / postcondition / res.is_ok() && hvs(res.unwrap()@) == cors_expected(*request, *cors)",
+            "Cors::process_using_default_config / postcondition / hvs(res.unwrap()@) == cors_env_expected(*request)  (membership in split(env ALLOW_ORIGINS, ','))",
+            "Cors::get_headers / postcondition / hvs(res@) == cors_headers_expected(*request)  (no Origin header => no grants)",
+        ],
+        "assumptions": [
+            "the process environment is what bootstrap() wrote (precedence of sources is C12, not covered): grants are proved relative to the values env::var returns",
+            "Request::get_header returns the first header matching up to letter case (assumed here, proved in unit request_lookup)",
+        ],
+    },
     "C03": {
         "units": ["range_parse", "response_gen"],
         "level": "proof",
-        "falsifier": "range",
+        "falsifier": ["range", "response"],
         "known_cases": ["end<len"],   # falsifier cases that are the known findings F2 (known_findings.txt)
         "samples": [
             "Range::parse_range_in_content_range / postcondition / res.is_ok() ==> range_ok(filelength, range_str@, res.unwrap())",
